@@ -25,7 +25,7 @@ func init() {
 		Rule: "race-detector build; per round a FRESH copy of every pool path is parsed and never executed, printed or fingerprinted before N goroutines are released from a barrier; each goroutine issues M calls of Query/First/Exists/Match/ExistsOrMatch/String (and concurrent Parse) on the shared *Path values, shared documents and one shared variables map, with seeded Gosched yields injected at evaluation steps (H1 hook); " +
 			"every call is recorded {client, input, call, result fingerprint, return} and the history is checked with porcupine against 'result = isolated baseline of the same input' (baseline computed on separately parsed copies); AST fingerprints compared after the run; then each path is queried after 0..K other calls (incl. failing, silent and cancelled ones) on the same *Path. " +
 			"Non-trivial: an operation that overlapped in time with another operation on the same *Path; distinct by (path, document, entry, options)",
-		Run:    runC19,
+		Run: runC19,
 		Shards: func(tier string) int {
 			if tier == "thorough" {
 				return 12
@@ -51,18 +51,19 @@ var c19Pool = []string{
 	`$v`, `$arr[*]`, `$obj.b[last]`, `$.i == $v`, `$arr[2].a + $v`, `$.s starts with $w`, `$missing`, `$.a[$missing]`, `"lit"`, `(1 + 2) * 3`, `null.type()`, `true`,
 	`strict $.a`, `strict $.nokey`, `strict $.a[5]`, `strict $.list[*].x`, `strict $.list[*] ? (@.x > 1)`, `strict exists($.a)`, `strict $.a.size() == 3`, `strict -$.s`, `strict $.a[0 to last].type()`,
 	`$.aa[0 to 1][*]`, `$.aa[0,2][*]`, `$.aa[0,1][*]`, `$.aa[2,0][*]`, `$.aa[*][*]`, `$.aa[*][0 to last]`, `$.aa[last][*]`, `$.aa[0,1,0][*]`, `$.**[*]`, `$.aa[*] ? (@.size() > 1)[*]`,
+	`strict $.big[*].x`, `strict $.big[*].x ? (@ > 100)`, `strict $.big[0 to 7].x ? (@ > 100)`, `strict $.a[*] ? (@ > 100)`, `strict $.big[*].x.double()`, `$.big[*].x ? (@ > 6)`, `$vf + $vi`, `$vn.string()`, `$arr[0] + $vn`,
 	`$.i == 1`, `$.a[*] > 1`, `exists($.a ? (@ > 2))`, `($.i == "x") is unknown`, `$.i == 1 && $.f > 1`, `!($.s == "x")`, `$.x.y.z`, `$.a.b.c`, `$.a[*].foo`, `$.list[1 to last].x`, `$.list[*].t.date().string()`,
 }
 
 var c19Docs = []string{
-	`{"a":[1,2,3],"aa":[[1,2,3],[4],[5],[6,7]],"i":1,"f":1.5,"n":"12","s":"abc1","o":{"b":2},"bools":["t",0],"list":[{"x":1,"y":"ab","t":"2023-08-15"},{"x":2,"y":"Abc","t":"2023-08-17"},{"x":"a","y":"b","z":1,"t":"2023-08-15"}],"d":"2023-08-15","tm":"12:34:56","tmz":"12:34:56+01:00","ts":"2023-08-15T12:34:56","tsz":"2023-08-15T12:34:56.789+01:00"}`,
+	`{"a":[1,2,3],"aa":[[1,2,3],[4],[5],[6,7]],"i":1,"f":1.5,"n":"12","s":"abc1","o":{"b":2},"bools":["t",0],"list":[{"x":1,"y":"ab","t":"2023-08-15"},{"x":2,"y":"Abc","t":"2023-08-17"},{"x":"a","y":"b","z":1,"t":"2023-08-15"}],"d":"2023-08-15","tm":"12:34:56","tmz":"12:34:56+01:00","ts":"2023-08-15T12:34:56","tsz":"2023-08-15T12:34:56.789+01:00","big":[{"x":1},{"x":2},{"x":3},{"x":4},{"x":5},{"x":6},{"x":7},{"x":8},{"y":9}]}`,
 	`{"a":[],"i":0,"f":-0.5,"n":"x","s":"","o":{},"bools":[],"list":[],"d":"bad","tm":"","tmz":"","ts":"","tsz":""}`,
 	`[1,[2,[3,[4]]],{"b":{"b":1}}]`, `null`, `"just a string"`, `42`, `{"a":{"b":{"c":1}},"i":[0],"x":{"y":{"z":[1,2]}}}`,
 	`{"a":[3,2,1],"aa":[[],[7,8,9,10,11],[12]],"i":2,"f":1e10,"n":"2147483648","s":"ab\nc","o":{"b":2},"bools":["yes","no",1],"list":[{"x":5,"y":"a.c"}],"d":"2024-02-29","tm":"23:59:59.999","tmz":"00:00:00Z","ts":"2024-02-29 23:59:59","tsz":"2024-02-29T23:59:59-08:00"}`,
 	`[]`, `{}`, `[null,null]`, `{"a":[1,"x",null,[2]],"i":-1,"f":2.5,"n":"1.5","s":"ABC","o":{"b":"2"},"list":[{"x":2,"y":"abc"}]}`,
 }
 
-const c19Vars = `{"v":1,"w":"ab","arr":[1,2,{"a":3}],"obj":{"b":[1,2]}}`
+const c19Vars = `{"v":1,"w":"ab","arr":[1,2,{"a":3}],"obj":{"b":[1,2]},"vn":2.50}`
 
 type c19Input struct {
 	pi, di int
@@ -152,7 +153,16 @@ func runC19(c *h.Ctx) {
 	for i, d := range c19Docs {
 		docs[i] = h.Decode(d, i%2 == 0)
 	}
-	vars := h.DecodeVars(c19Vars, false)
+	// numbers as json.Number (as a caller using Decoder.UseNumber passes them),
+	// plus one float64 and one int64
+	newVars := func() map[string]any {
+		v := h.DecodeVars(c19Vars, true)
+		v["vf"] = 2.5
+		v["vi"] = int64(7)
+		return v
+	}
+	varsFP := h.CanonTyped(newVars()) // of a map no call has seen
+	vars := newVars()                 // baseline and sequential phases
 
 	// Which pool paths expose member order? (computed from separately parsed copies)
 	basePaths, exposed := parsePool()
@@ -179,12 +189,14 @@ func runC19(c *h.Ctx) {
 			}
 		}
 	}
+	if h.CanonTyped(vars) != varsFP {
+		c.Violate("concurrent-differs", h.F("kind", "shared-input-modified", "phase", "sequential"), "the variables map was modified by sequential calls: "+h.CanonTyped(vars)+" was "+varsFP, h.Case{Kind: "shared-input"})
+	}
 	baseFP := make([]string, len(basePaths))
 	for i, p := range basePaths {
 		baseFP[i] = p.String() + " | " + gen.FromAST(p.AST).Sexp()
 	}
 	docFP := h.CanonTyped(docs)
-	varsFP := h.CanonTyped(vars)
 	c.Count("pool.paths", int64(len(c19Pool)))
 	c.Count("pool.inputs", int64(len(inputs)))
 
@@ -192,6 +204,8 @@ func runC19(c *h.Ctx) {
 	for round := 0; round < rounds; round++ {
 		// FRESH copies, untouched until the barrier opens
 		shared, _ := parsePool()
+		// ... and a fresh variables map: the first uses of its members race too
+		vars := newVars()
 		var wg sync.WaitGroup
 		start := make(chan struct{})
 		t0 := time.Now()
@@ -239,6 +253,16 @@ func runC19(c *h.Ctx) {
 			}
 		}
 		model := porcupine.Model{
+			// the model has no state, so every operation is its own partition
+			// (P-compositionality): the search stays linear also when an
+			// operation is illegal
+			Partition: func(history []porcupine.Operation) [][]porcupine.Operation {
+				parts := make([][]porcupine.Operation, len(history))
+				for i := range history {
+					parts[i] = history[i : i+1]
+				}
+				return parts
+			},
 			Init: func() any { return 0 },
 			Step: func(st, in, out any) (bool, any) {
 				return baseline[in.(c19Input).key()] == out.(string), st
@@ -252,9 +276,10 @@ func runC19(c *h.Ctx) {
 			for range hist {
 				c.Held("concurrent-differs")
 			}
-		case porcupine.Unknown:
-			c.Skip("concurrent-differs", "porcupine-timeout")
 		default:
+			if res == porcupine.Unknown {
+				c.Count("porcupine.timeout", 1) // decided operation by operation below
+			}
 			// find the offending operations (the model is stateless: per-operation)
 			n := 0
 			for _, gops := range ops {
